@@ -263,3 +263,11 @@ Definition receiver_resynchronize (r : receiver) (sender_next_id : N) : receiver
   let delta := pid_sub sender_next_id (r_base r) in
   if r_wsize r <? delta then r else
   advance_window r (resync_scan (N.to_nat delta) (r_base r) r).
+
+(* bytes actually held for received packet data: capacity of the active reassembly buffers plus
+   complete packets not yet delivered (what the cfg(uflow_verif) dump reports as `held`) *)
+Definition slot_held (s : slot) : N :=
+  (match sl_asm s with AsmActive _ _ _ _ _ buf => fb_n buf * MAX_FRAGMENT_SIZE | _ => 0 end)
+  + (match sl_data s with Some d => len d | None => 0 end).
+
+Definition receiver_held (r : receiver) : N := fold_right (fun s acc => slot_held s + acc) 0 (r_slots r).
